@@ -161,12 +161,23 @@ def group_client_cases(cases, tier):
             seen.add(k)
             out.append(dict(steps=steps, slow=True))
         elif last["op"] in STATE_CHANGING_OPS:
-            out.append(dict(steps=steps))
+            if c.get("act") == "reject":
+                # a negotiation call the endpoint refuses must leave nothing behind: every feature-dependent call is
+                # tried after it (the model's state is unchanged, so each of them is still expected to be refused)
+                out.append(dict(steps=steps + [dict(op=o, cls=cl, v=[], rv=[], peer="auto") for o, cl in GATED_PROBES]))
+            else:
+                out.append(dict(steps=steps))
         else:
             key = json.dumps(prefix, sort_keys=True)
             by_prefix.setdefault(key, dict(steps=list(prefix)))["steps"].append(last)
     out.extend(by_prefix.values())
     return out
+
+
+GATED_PROBES = [("get_queue_num", "ok"), ("reset_device", "ok"), ("get_config", "ok"), ("set_config", "ok"), ("set_backend_request_fd", "ok"),
+                ("get_inflight_fd", "ok"), ("set_inflight_fd", "ok"), ("get_max_mem_slots", "ok"), ("add_mem_region", "ok"),
+                ("remove_mem_region", "ok"), ("get_shared_object", "ok"), ("get_shmem_config", "ok"), ("check_device_state", "ok"),
+                ("set_vring_enable", "ok"), ("set_log_base", "shmfd")]
 
 
 def client_run(ctx, want_mutations=True):
@@ -566,6 +577,14 @@ def hostile_server_run(ctx, fdpos=False):
     for r in range(reps):
         for c in cases:
             allc.append(dict(dev=c["dev"], steps=c["steps"], adapter="direct" if r % 3 == 2 else "mutex"))
+    # requests whose body is cut off by end-of-stream (after its first byte, in the middle, before its last byte): the missing
+    # bytes must never reach the handler (the exhaustive cut enumeration belongs to C08)
+    import subprocess
+    from vlib import VH
+    for cl in json.loads(subprocess.run([VH, "lens"], stdout=subprocess.PIPE, text=True, check=True).stdout):
+        if cl["len"] > 13:
+            for k in sorted({13, 12 + (cl["len"] - 12) // 2, cl["len"] - 1}):
+                allc.append(dict(dev=dict(vf=[30], pf=[]), steps=SRV_PREFIX + [dict(c=cl["c"], nr=False, h="ok", v=[], var="fixed", seg=[], cut=k)]))
     allc = replay_or(ctx, "server", allc)
     tr = ctx.harness("server", allc, shards=12, crash_is_data=True)
     viol = ctx.tlc_tv("TV_BackendServer", tr, "server")
@@ -741,7 +760,10 @@ def run_C10(ctx):
             for ep in ("fe", "be", "gpu"):
                 if ep == "fe" and "ack" in k and "ff" in k:
                     continue   # NEED_REPLY is a property of the shared endpoint: ack and fire-and-forget calls cannot mix
-                if ep == "be" and len(set(k)) != 1 or ep == "be" and "reply" in k:
+                cfgk = any(x.startswith("cfg") for x in k)
+                if cfgk and ep == "gpu":
+                    continue   # the GPU proxy has no such setting
+                if not cfgk and (ep == "be" and len(set(k)) != 1 or ep == "be" and "reply" in k):
                     continue   # the proxy's requests are all acknowledged or all fire-and-forget
                 cases.append(dict(ep=ep, kinds=k, sched=s_["sched"]))
     if ctx.tier == "quick" and len(cases) > 1500:
@@ -842,12 +864,15 @@ def vring_letter(a):
 
 def run_C11(ctx):
     cover = ctx.tlc_mc("MC_Vring", "MC_Vring_cover")
-    hist = ctx.tlc_mc("MC_Vring", "MC_Vring_hist_" + ctx.tier)
+    hist = ctx.tlc_mc("MC_Vring", "MC_Vring_hist_" + ctx.tier, max_cases=900000)
     depth = 5 if ctx.tier == "quick" else 6
     hist = [c for c in hist if len(c["steps"]) == depth]
     if ctx.tier == "quick":
         hist = hist[::max(1, len(hist) // 4000)]
         cover = cover[::2]
+    else:
+        # every depth-6 history is model-checked; a seeded sample of them is replayed (memory / time of the replay)
+        hist = random.Random(ctx.seed).sample(hist, min(len(hist), 80000))
     cases = []
     for i, c in enumerate(cover):
         cases.append(dict(nq=2, masks=[3] if i % 3 else [1, 2], vring="rwlock" if i % 2 else "mutex", adapter=("arc", "mutex", "rwlock")[i % 3],
@@ -933,8 +958,15 @@ def mem_pool(rnd):
     G = rnd.choice([0x1000, 0x10_0000, 0x7f00_0000_0000, (1 << 64) - 0x40000])
     uas = [0x7000_0000_0000, 0x1000, (1 << 64) - 0x100000, 0x5555_0000_0000, 0x1234_5678_0000]
     rnd.shuffle(uas)
-    return [dict(gpa=limbs(G + POOL_LO[r] * 0x1000), size=limbs((POOL_HI[r] - POOL_LO[r]) * 0x1000), ua=limbs(uas[r]),
-                 off=limbs(rnd.choice([0, 0x1000, 0x3000]))) for r in range(5)], G
+    if rnd.random() < 0.5:
+        # region 4 covers the guest range of region 0 with another file; in half of the pools it also has the same
+        # user address (the same memory re-backed by a different file / offset)
+        uas[4] = uas[0]
+    pool = [dict(gpa=limbs(G + POOL_LO[r] * 0x1000), size=limbs((POOL_HI[r] - POOL_LO[r]) * 0x1000), ua=limbs(uas[r]),
+                 off=limbs(rnd.choice([0, 0x1000, 0x3000]))) for r in range(5)]
+    if uas[4] == uas[0] and pool[4]["off"] == pool[0]["off"]:
+        pool[4]["off"] = limbs(0x2000)
+    return pool, G
 
 
 def mem_letter(a):
@@ -991,11 +1023,13 @@ def run_C13(ctx):
                 st = st + mem_reconnect_tail(pool, G, [(xl + 1 + k) % 5 for k in range(5)])
             cases.append(dict(nq=1, masks=[1], pool=pool, vring="rwlock" if i % 2 else "mutex", adapter=("arc", "mutex", "rwlock")[i % 3], steps=st))
     # all histories (no state merging) over single-region letters: history-dependent slips (stale translation entries ...)
-    hist = ctx.tlc_mc("MC_Mem", "MC_Mem_hist_" + ctx.tier)
+    hist = ctx.tlc_mc("MC_Mem", "MC_Mem_hist_" + ctx.tier, max_cases=900000)
     depth = 3 if ctx.tier == "quick" else 4
     hist = [c for c in hist if len(c["steps"]) == depth]
     if ctx.tier == "quick":
         hist = hist[::max(1, len(hist) // 3000)]
+    else:
+        hist = random.Random(ctx.seed).sample(hist, min(len(hist), 40000))
     for i, c in enumerate(hist):
         pool, G = mem_pool(rnd)
         letters = [mem_letter(a) for a in c["steps"]]
@@ -1214,9 +1248,14 @@ def run_C16(ctx):
         sch = ctx.tlc_mc("MC_Daemon", name, workers=4, timeout=1800)
         if len(sch) > (400 if ctx.tier == "quick" else 6000):
             sch = rnd.sample(sch, 400 if ctx.tier == "quick" else 6000)
-        for c in sch:
+        for j, c in enumerate(sch):
             cases.append(dict(shutdown=True, callers=c["callers"], peer=c["peer"], peer_closes=c["peer_closes"], sched=c["sched"],
                               predicted=dict(err=c["err"], wait=c["wait"])))
+            if c["peer_closes"] and c["peer"] != "full_reply" and (n <= 1 or j % 4 == 0):
+                # the same schedule with a peer that only ends its own direction and keeps reading: the daemon sees the same
+                # end-of-stream, and the peer must see one from the daemon when it stops serving (not for a request with a reply:
+                # there the model's closed peer makes the daemon's write fail, which a half-closed peer does not)
+                cases.append(dict(cases[-1], halfclose=True))
     # peer close at every byte offset of a bodied and a body-less request, through serve()
     for bodied, ln in ((True, 20), (False, 12)):
         for cut in range(0, ln + 1):
@@ -1243,7 +1282,8 @@ def run_C16(ctx):
         "end-of-stream. Every complete schedule (0..2 callers all; 3 callers sampled in thorough) is driven through the hold points "
         "d.before_request / d.after_request / d.before_final_shutdown / s.after_flag and a blocking handler on a real daemon; TLC replays "
         "the executed commands as model actions (conformance) and compares wait(), the peer's view, restart on a new connection, repeated "
-        "shutdown and the thread count after drop. serve() is run with the peer closing at every byte offset of a bodied and a body-less request.",
+        "shutdown and the thread count after drop; peers that close are also run as peers that only end their own direction and keep reading "
+        "(they must see end-of-stream). serve() is run with the peer closing at every byte offset of a bodied and a body-less request.",
         ASSUME_COMMON + ["wait() runs under a 10 s watchdog (its expiry is the 'hang' verdict); thread termination after drop is awaited for up to 10 s",
                          "a peer closing with an unread reply (ECONNRESET) is mapped to Ok by the library by design and is not part of these schedules"],
         viol)
